@@ -362,6 +362,117 @@ func ownClosurePayload(n *lib.Node, r *lib.Rng) {
 	}
 }
 
+// ---------------------------------------------------------------- class "junk"
+// Points built through NewPoint(Coordinates{...}) whose Z/M fields hold values although the
+// coordinates type does not have them: bare, as members of NewMultiPoint and of
+// NewGeometryCollection with mixed types. Everything else is built as lib.Node.Build does.
+
+var junkValues = []float64{7, -3.5, 9, math.NaN(), math.Inf(1), math.Inf(-1), 1e300, math.Copysign(0, -1)}
+
+func flatOf(c [][4]float64, ct geom.CoordinatesType) []float64 {
+	var out []float64
+	for _, v := range c {
+		out = append(out, v[0], v[1])
+		if ct.Is3D() {
+			out = append(out, v[2])
+		}
+		if ct.IsMeasured() {
+			out = append(out, v[3])
+		}
+	}
+	return out
+}
+
+type junkBuilder struct {
+	r      *lib.Rng
+	probes []string // "?newpoint|..." records, one per point constructed
+	made   int
+}
+
+func (b *junkBuilder) point(n *lib.Node) geom.Point {
+	if !n.Full {
+		return geom.NewEmptyPoint(n.CT)
+	}
+	c := geom.Coordinates{XY: geom.XY{X: n.C[0][0], Y: n.C[0][1]}, Z: n.C[0][2], M: n.C[0][3], Type: n.CT}
+	if !n.CT.Is3D() && b.r.Chance(3, 4) {
+		c.Z = junkValues[b.r.Intn(len(junkValues))]
+	}
+	if !n.CT.IsMeasured() && b.r.Chance(3, 4) {
+		c.M = junkValues[b.r.Intn(len(junkValues))]
+	}
+	p := geom.NewPoint(c)
+	b.made++
+	if len(b.probes) < 4 {
+		o, _ := p.Coordinates()
+		arg := strings.Join([]string{fmt.Sprint(int(n.CT)), hexf(c.X), hexf(c.Y), hexf(c.Z), hexf(c.M),
+			fmt.Sprint(int(o.Type)), hexf(o.X), hexf(o.Y), hexf(o.Z), hexf(o.M)}, ",")
+		b.probes = append(b.probes, strings.Join([]string{"?newpoint", arg, lib.Dump(p.AsGeometry()), auditOf(p.AsGeometry())}, "|"))
+	}
+	return p
+}
+
+func (b *junkBuilder) line(n *lib.Node) geom.LineString {
+	return geom.NewLineString(geom.NewSequence(flatOf(n.C, n.CT), n.CT))
+}
+
+func (b *junkBuilder) poly(n *lib.Node) geom.Polygon {
+	if len(n.Kids) == 0 {
+		return geom.Polygon{}.ForceCoordinatesType(n.CT)
+	}
+	rings := make([]geom.LineString, len(n.Kids))
+	for i, k := range n.Kids {
+		rings[i] = b.line(k)
+	}
+	return geom.NewPolygon(rings)
+}
+
+func (b *junkBuilder) build(n *lib.Node) geom.Geometry {
+	switch n.Kind {
+	case lib.KPoint:
+		return b.point(n).AsGeometry()
+	case lib.KLine:
+		return b.line(n).AsGeometry()
+	case lib.KPoly:
+		return b.poly(n).AsGeometry()
+	case lib.KMPoint:
+		if len(n.Kids) == 0 {
+			return geom.MultiPoint{}.ForceCoordinatesType(n.CT).AsGeometry()
+		}
+		ps := make([]geom.Point, len(n.Kids))
+		for i, k := range n.Kids {
+			ps[i] = b.point(k)
+		}
+		return geom.NewMultiPoint(ps).AsGeometry()
+	case lib.KMLine:
+		if len(n.Kids) == 0 {
+			return geom.MultiLineString{}.ForceCoordinatesType(n.CT).AsGeometry()
+		}
+		ls := make([]geom.LineString, len(n.Kids))
+		for i, k := range n.Kids {
+			ls[i] = b.line(k)
+		}
+		return geom.NewMultiLineString(ls).AsGeometry()
+	case lib.KMPoly:
+		if len(n.Kids) == 0 {
+			return geom.MultiPolygon{}.ForceCoordinatesType(n.CT).AsGeometry()
+		}
+		ps := make([]geom.Polygon, len(n.Kids))
+		for i, k := range n.Kids {
+			ps[i] = b.poly(k)
+		}
+		return geom.NewMultiPolygon(ps).AsGeometry()
+	default:
+		if len(n.Kids) == 0 {
+			return geom.GeometryCollection{}.ForceCoordinatesType(n.CT).AsGeometry()
+		}
+		gs := make([]geom.Geometry, len(n.Kids))
+		for i, k := range n.Kids {
+			gs[i] = b.build(k)
+		}
+		return geom.NewGeometryCollection(gs).AsGeometry()
+	}
+}
+
 // ---------------------------------------------------------------- one step
 
 type stepOut struct {
@@ -718,11 +829,15 @@ func main() {
 	opCount := map[string]int{}
 	status := map[string]int{}
 	steps := 0
+	junkPoints := 0
 	for i := 0; i < a.N; i++ {
 		r := root.Fork()
 		cfg := lib.StructCfg{MaxDepth: 3, NonFinZM: true, MaxKids: 3, MaxVerts: 5}
 		class := "wf"
 		switch i % 10 {
+		case 3:
+			cfg.MixedCT = true
+			class = "junk"
 		case 4, 5:
 			cfg.MixedCT = true
 			class = "mixedct"
@@ -735,16 +850,30 @@ func main() {
 		}
 		classes[class]++
 		var g geom.Geometry
+		var junkProbes []string
 		desc := "-"
 		if class == "shapes" {
 			g = genShape(r, 2)
 		} else {
-			n := cfg.GenKind(r, lib.Kind(r.Intn(7)), &st)
+			kind := lib.Kind(r.Intn(7))
+			if class == "junk" {
+				// kinds that hold points: Point, MultiPoint, GeometryCollection
+				kind = []lib.Kind{lib.KPoint, lib.KMPoint, lib.KMPoint, lib.KColl, lib.KColl}[r.Intn(5)]
+			}
+			n := cfg.GenKind(r, kind, &st)
 			ownClosurePayload(n, r)
 			desc = n.Dump()
-			g = n.Build()
+			if class == "junk" {
+				jb := &junkBuilder{r: r}
+				g = jb.build(n)
+				junkProbes = jb.probes
+				junkPoints += jb.made
+			} else {
+				g = n.Build()
+			}
 		}
 		fields := []string{fmt.Sprint(i), class, desc, lib.Dump(g) + "|" + auditOf(g)}
+		fields = append(fields, junkProbes...)
 		nsteps := r.Range(1, 8)
 		for s := 0; s < nsteps; s++ {
 			var so *stepOut
@@ -774,7 +903,7 @@ func main() {
 	stats := map[string]interface{}{"classes": classes, "kinds": st.Kinds, "ctypes": st.CTs,
 		"float_classes": st.FloatCls, "float_class_names": lib.FloatClassNames,
 		"empty_nodes": st.EmptyNodes, "empty_members": st.EmptyKids, "vertices": st.Verts,
-		"steps": steps, "ops": opCount, "not_a_geometry": status}
+		"steps": steps, "junk_points": junkPoints, "ops": opCount, "not_a_geometry": status}
 	js, _ := json.Marshal(stats)
 	fmt.Fprintf(w, "#GEN\t%s\n", js)
 }
